@@ -1,1 +1,301 @@
-From C23 Require Import Model.
+(* C23/Proofs.v -- lemmas about the Go model and the Substrate specification. *)
+From Coq Require Import NArith List Bool Arith Lia.
+From C23 Require Import Model Spec.
+Import ListNotations.
+Local Open Scope N_scope.
+
+(* ================= sort.Search ================= *)
+Lemma div2_bounds : forall i j, (i < j)%nat -> (i <= Nat.div2 (i + j) < j)%nat.
+Proof.
+  intros i j H. pose proof (Nat.div2_odd (i + j)) as E.
+  destruct (Nat.odd (i + j)); cbn [Nat.b2n] in E; lia.
+Qed.
+
+(* for a predicate that is monotone on [i, j) the Go loop returns the least index that
+   satisfies it (j when none does) *)
+Lemma go_search_spec : forall fuel f i j, (i <= j)%nat -> (j - i < fuel)%nat ->
+  (forall k k', (i <= k <= k')%nat -> (k' < j)%nat -> f k = true -> f k' = true) ->
+  let r := go_search fuel f i j in
+  (i <= r <= j)%nat /\ (forall k, (i <= k < r)%nat -> f k = false) /\ (forall k, (r <= k < j)%nat -> f k = true).
+Proof.
+  induction fuel as [|fuel IH]; intros f i j Hij Hf Hm; [lia|].
+  cbn [go_search]. destruct (i <? j)%nat eqn:E.
+  - apply Nat.ltb_lt in E. pose proof (div2_bounds i j E) as Hh.
+    set (h := Nat.div2 (i + j)) in *. destruct (f h) eqn:Fh.
+    + destruct (IH f i h) as [R1 [R2 R3]]; [lia | lia | intros; apply (Hm k k'); auto; lia |].
+      cbn zeta in *. split; [lia|]. split; [exact R2|].
+      intros k Hk. destruct (Nat.lt_ge_cases k h) as [Hlt|Hge]; [apply R3; lia|].
+      apply (Hm h k); auto; lia.
+    + destruct (IH f (S h) j) as [R1 [R2 R3]]; [lia | lia | intros; apply (Hm k k'); auto; lia |].
+      cbn zeta in *. split; [lia|]. split; [|exact R3].
+      intros k Hk. destruct (Nat.lt_ge_cases k (S h)) as [Hlt|Hge]; [|apply R2; lia].
+      destruct (f k) eqn:Fk; [|reflexivity].
+      rewrite (Hm k h) in Fh; [discriminate | lia | lia | exact Fk].
+  - apply Nat.ltb_ge in E. cbn zeta. assert (i = j) by lia. subst. split; [lia|]. split; intros; lia.
+Qed.
+
+(* index of the first element satisfying p *)
+Fixpoint first_idx {A} (p : A -> bool) (l : list A) : nat :=
+  match l with [] => O | x :: r => if p x then O else S (first_idx p r) end.
+
+Lemma first_idx_le : forall {A} (p : A -> bool) l, (first_idx p l <= length l)%nat.
+Proof. induction l as [|x l IH]; cbn; [lia|]. destruct (p x); lia. Qed.
+
+Lemma first_idx_false : forall {A} (p : A -> bool) d l k, (k < first_idx p l)%nat -> p (nth k l d) = false.
+Proof.
+  induction l as [|x l IH]; cbn; intros k H; [lia|].
+  destruct (p x) eqn:E; [lia|]. destruct k; [exact E | apply IH; lia].
+Qed.
+
+Lemma first_idx_true : forall {A} (p : A -> bool) d l, (first_idx p l < length l)%nat ->
+  p (nth (first_idx p l) l d) = true.
+Proof.
+  induction l as [|x l IH]; cbn; intros H; [lia|].
+  destruct (p x) eqn:E; [exact E | apply IH; lia].
+Qed.
+
+(* the least index characterisation determines the index *)
+Lemma least_unique : forall (f : nat -> bool) n r1 r2,
+  (r1 <= n)%nat -> (r2 <= n)%nat ->
+  (forall k, (k < r1)%nat -> f k = false) -> (forall k, (r1 <= k < n)%nat -> f k = true) ->
+  (forall k, (k < r2)%nat -> f k = false) -> (forall k, (r2 <= k < n)%nat -> f k = true) -> r1 = r2.
+Proof.
+  intros f n r1 r2 H1 H2 A1 B1 A2 B2.
+  destruct (Nat.lt_trichotomy r1 r2) as [H|[H|H]]; [|exact H|].
+  - assert (E : f r1 = true) by (apply B1; lia). rewrite (A2 r1 H) in E. discriminate.
+  - assert (E : f r2 = true) by (apply B2; lia). rewrite (A1 r2 H) in E. discriminate.
+Qed.
+
+(* ---- the forced-change order ---- *)
+Definition key_le (t : tree) (a b : pchange) : bool := negb (key_lt t b a).
+Fixpoint sorted_by_key (t : tree) (l : list pchange) : bool :=
+  match l with
+  | [] => true
+  | x :: r => match r with [] => true | y :: _ => key_le t x y end && sorted_by_key t r
+  end.
+
+Lemma fixed_pred_key : forall t l c i, fixed_pred t l c i = key_le t c (nth i l dummy_pc).
+Proof.
+  intros. unfold fixed_pred, key_le, key_lt.
+  set (x := nth i l dummy_pc).
+  destruct (eff t c <? eff t x) eqn:E1; destruct (eff t x <? eff t c) eqn:E2;
+  destruct (eff t c =? eff t x) eqn:E3; destruct (eff t x =? eff t c) eqn:E4;
+  destruct (number t (pc_blk c) <=? number t (pc_blk x)) eqn:E5;
+  destruct (number t (pc_blk x) <? number t (pc_blk c)) eqn:E6; cbn; try reflexivity;
+  try apply N.ltb_lt in E1; try apply N.ltb_ge in E1; try apply N.ltb_lt in E2; try apply N.ltb_ge in E2;
+  try apply N.eqb_eq in E3; try apply N.eqb_neq in E3; try apply N.eqb_eq in E4; try apply N.eqb_neq in E4;
+  try apply N.leb_le in E5; try apply N.leb_gt in E5; try apply N.ltb_lt in E6; try apply N.ltb_ge in E6; lia.
+Qed.
+
+Lemma key_le_trans : forall t a b c, key_le t a b = true -> key_le t b c = true -> key_le t a c = true.
+Proof.
+  intros t a b c. unfold key_le, key_lt. intros H1 H2.
+  apply negb_true_iff in H1. apply negb_true_iff in H2. apply negb_true_iff.
+  apply orb_false_iff in H1. apply orb_false_iff in H2. apply orb_false_iff.
+  destruct H1 as [A1 B1]. destruct H2 as [A2 B2].
+  apply N.ltb_ge in A1. apply N.ltb_ge in A2.
+  split; [apply N.ltb_ge; lia|].
+  apply andb_false_iff. apply andb_false_iff in B1. apply andb_false_iff in B2.
+  destruct (eff t c =? eff t a) eqn:E; [right | left; reflexivity].
+  apply N.eqb_eq in E. apply N.ltb_ge.
+  destruct B1 as [B1|B1]; destruct B2 as [B2|B2];
+    try apply N.eqb_neq in B1; try apply N.eqb_neq in B2;
+    try apply N.ltb_ge in B1; try apply N.ltb_ge in B2; lia.
+Qed.
+
+Lemma sorted_nth : forall t l, sorted_by_key t l = true -> forall i j, (i <= j < length l)%nat ->
+  key_le t (nth i l dummy_pc) (nth j l dummy_pc) = true.
+Proof.
+  intros t. induction l as [|x l IH]; intros S i j H; [cbn in H; lia|].
+  cbn [sorted_by_key] in S. apply andb_true_iff in S. destruct S as [S1 S2].
+  assert (Hx : forall j, (j < length l)%nat -> key_le t x (nth j l dummy_pc) = true).
+  { clear i j H. destruct l as [|y l']; [cbn; intros; lia|].
+    intros j Hj. apply (key_le_trans t x y); [exact S1|].
+    apply (IH S2 O j). cbn in *. lia. }
+  destruct i as [|i]; destruct j as [|j]; cbn [nth length] in *.
+  - unfold key_le, key_lt. rewrite !N.ltb_irrefl, N.eqb_refl. reflexivity.
+  - apply Hx. lia.
+  - lia.
+  - apply IH; [exact S2 | lia].
+Qed.
+
+(* the repaired predicate is monotone over a list ordered by key *)
+Lemma fixed_pred_monotone : forall t l c, sorted_by_key t l = true ->
+  forall k k', (0 <= k <= k')%nat -> (k' < length l)%nat ->
+  fixed_pred t l c k = true -> fixed_pred t l c k' = true.
+Proof.
+  intros t l c S k k' H1 H2. rewrite !fixed_pred_key. intros H.
+  apply (key_le_trans t c (nth k l dummy_pc)); [exact H|]. apply sorted_nth; [exact S | lia].
+Qed.
+
+Lemma s_forced_insert_idx : forall t l c,
+  s_forced_insert t l c = insert_at l (first_idx (fun x => key_le t c x) l) c.
+Proof.
+  intros t l c. induction l as [|x l IH]; [reflexivity|].
+  cbn [s_forced_insert first_idx]. unfold key_le at 1.
+  destruct (key_lt t x c); cbn [negb].
+  - rewrite IH. reflexivity.
+  - reflexivity.
+Qed.
+
+(* sort.Search with the repaired predicate finds Substrate's insertion point *)
+Lemma forced_insert_fixed : forall t l c, sorted_by_key t l = true ->
+  forced_insert fixed_pred t l c = s_forced_insert t l c.
+Proof.
+  intros t l c Hs. unfold forced_insert. rewrite s_forced_insert_idx. f_equal.
+  destruct (go_search_spec (S (length l)) (fixed_pred t l c) 0 (length l)) as [R1 [R2 R3]];
+    [lia | lia | apply fixed_pred_monotone; exact Hs |]. cbn zeta in *.
+  apply (least_unique (fixed_pred t l c) (length l)).
+  - lia.
+  - apply first_idx_le.
+  - intros k Hk. apply R2. lia.
+  - exact R3.
+  - intros k Hk. rewrite fixed_pred_key. apply (first_idx_false (fun x => key_le t c x)). exact Hk.
+  - intros k Hk. rewrite fixed_pred_key.
+    pose proof (first_idx_true (fun x => key_le t c x) dummy_pc l) as T.
+    apply (key_le_trans t c (nth (first_idx (fun x => key_le t c x) l) l dummy_pc)); [apply T; lia|].
+    apply sorted_nth; [exact Hs | lia].
+Qed.
+
+Lemma s_forced_insert_sorted : forall t l c, sorted_by_key t l = true ->
+  sorted_by_key t (s_forced_insert t l c) = true.
+Proof.
+  intros t l c. induction l as [|x l IH]; intros S; [reflexivity|].
+  cbn [s_forced_insert]. destruct (key_lt t x c) eqn:E.
+  - cbn [sorted_by_key] in S. apply andb_true_iff in S. destruct S as [S1 S2].
+    specialize (IH S2). cbn [sorted_by_key]. rewrite IH, andb_true_r.
+    destruct l as [|y l']; cbn [s_forced_insert] in *.
+    + unfold key_le. unfold key_lt in *.
+      apply orb_true_iff in E. apply negb_true_iff. apply orb_false_iff.
+      destruct E as [E|E].
+      * apply N.ltb_lt in E. split; [apply N.ltb_ge; lia|]. apply andb_false_iff. left. apply N.eqb_neq. lia.
+      * apply andb_true_iff in E. destruct E as [E1 E2]. apply N.eqb_eq in E1. apply N.ltb_lt in E2.
+        split; [apply N.ltb_ge; lia|]. apply andb_false_iff. right. apply N.ltb_ge. lia.
+    + destruct (key_lt t y c); [exact S1|].
+      unfold key_le. unfold key_lt in *.
+      apply orb_true_iff in E. apply negb_true_iff. apply orb_false_iff.
+      destruct E as [E|E].
+      * apply N.ltb_lt in E. split; [apply N.ltb_ge; lia|]. apply andb_false_iff. left. apply N.eqb_neq. lia.
+      * apply andb_true_iff in E. destruct E as [E1 E2]. apply N.eqb_eq in E1. apply N.ltb_lt in E2.
+        split; [apply N.ltb_ge; lia|]. apply andb_false_iff. right. apply N.ltb_ge. lia.
+  - cbn [sorted_by_key]. cbn [sorted_by_key] in S. rewrite S, andb_true_r.
+    unfold key_le. rewrite E. reflexivity.
+Qed.
+
+(* ================= set id by block number ================= *)
+(* ls = last block numbers of sets 0, 1, ..., k-1 (k = current set id).  Substrate stores
+   [(0, L0); (1, L1); ...]; gossamer stores setIDChangeKey(0) -> 0, setIDChangeKey(i+1) -> Li. *)
+Definition geq (n L : N) : bool := n <=? L.
+Fixpoint sorted_n (l : list N) : bool :=
+  match l with
+  | [] => true
+  | x :: r => match r with [] => true | y :: _ => x <=? y end && sorted_n r
+  end.
+Definition spec_table_from (k : nat) (ls : list N) : list (N * N) :=
+  combine (map N.of_nat (seq k (length ls))) ls.
+Definition go_table_ok (chs : list (N * N)) (ls : list N) : Prop :=
+  aget chs 0 = Some 0 /\
+  (forall i, (i < length ls)%nat -> aget chs (N.of_nat (S i)) = Some (nth i ls 0)) /\
+  aget chs (N.of_nat (S (length ls))) = None.
+
+Lemma s_setid_in_first : forall ls k n,
+  s_setid_in (spec_table_from k ls) n =
+  if (first_idx (geq n) ls <? length ls)%nat
+  then Some (N.of_nat (k + first_idx (geq n) ls)) else None.
+Proof.
+  induction ls as [|L ls IH]; intros k n; [reflexivity|].
+  unfold spec_table_from. cbn [length seq map combine s_setid_in first_idx].
+  unfold geq at 1 2. destruct (n <=? L) eqn:E.
+  - cbn [Nat.ltb Nat.leb]. f_equal. f_equal. lia.
+  - fold (spec_table_from (S k) ls). rewrite IH.
+    change (S (first_idx (geq n) ls) <? S (length ls))%nat
+      with (first_idx (geq n) ls <? length ls)%nat.
+    destruct (first_idx (geq n) ls <? length ls)%nat; [|reflexivity].
+    f_equal. f_equal. lia.
+Qed.
+
+Lemma sorted_n_nth : forall l, sorted_n l = true -> forall i j, (i <= j < length l)%nat -> nth i l 0 <= nth j l 0.
+Proof.
+  induction l as [|x l IH]; intros Hs i j H; [cbn in H; lia|].
+  cbn [sorted_n] in Hs. apply andb_true_iff in Hs. destruct Hs as [S1 S2].
+  assert (Hx : forall j, (j < length l)%nat -> x <= nth j l 0).
+  { clear i j H. destruct l as [|y l']; [cbn; intros; lia|]. intros j Hj. apply N.leb_le in S1.
+    pose proof (IH S2 O j). cbn [nth] in H. cbn in Hj. assert (y <= nth j (y :: l') 0) by (apply H; cbn; lia). lia. }
+  destruct i as [|i]; destruct j as [|j]; cbn [nth length] in *; try lia.
+  - apply Hx. lia.
+  - apply IH; [exact S2 | lia].
+Qed.
+
+Lemma first_idx_char : forall (ls : list N) n c, sorted_n ls = true -> (c < length ls)%nat ->
+  n <= nth c ls 0 -> (forall i, (i < c)%nat -> nth i ls 0 < n) -> first_idx (geq n) ls = c.
+Proof.
+  intros ls n c Hs Hc Hu Hl.
+  pose proof (first_idx_le (geq n) ls) as B.
+  destruct (Nat.lt_trichotomy (first_idx (geq n) ls) c) as [H|[H|H]]; [|exact H|].
+  - pose proof (first_idx_true (geq n) 0 ls ltac:(lia)) as T. unfold geq in T.
+    apply N.leb_le in T. specialize (Hl _ H). lia.
+  - pose proof (first_idx_false (geq n) 0 ls c H) as F. unfold geq in F.
+    apply N.leb_gt in F. lia.
+Qed.
+
+Lemma setid_loop_down : forall chs ls n, sorted_n ls = true -> go_table_ok chs ls ->
+  forall c fuel, (c < length ls)%nat -> (c < fuel)%nat -> n <= nth c ls 0 ->
+  setid_loop fuel chs n (N.of_nat c) = Some (N.of_nat (first_idx (geq n) ls)).
+Proof.
+  intros chs ls n Hs [T0 [Ti Tn]]. induction c as [|c IH]; intros fuel Hc Hf Hu.
+  - destruct fuel as [|fuel]; [lia|]. cbn [setid_loop].
+    change (N.of_nat 0 + 1) with (N.of_nat 1). rewrite (Ti O Hc). cbn [N.of_nat]. rewrite T0.
+    destruct ((n <=? nth 0 ls 0) && (0 <? n)) eqn:E.
+    + apply andb_true_iff in E. destruct E as [_ E]. apply N.ltb_lt in E.
+      f_equal. f_equal. symmetry. apply first_idx_char; auto. intros i Hi. lia.
+    + assert (Hn : (nth 0 ls 0 <? n) = false) by (apply N.ltb_ge; exact Hu). rewrite Hn.
+      cbn [N.eqb]. f_equal. f_equal. symmetry. apply first_idx_char; auto; [|intros i Hi; lia].
+      apply andb_false_iff in E. destruct E as [E|E]; [apply N.leb_gt in E; lia|]. apply N.ltb_ge in E. lia.
+  - destruct fuel as [|fuel]; [lia|]. cbn [setid_loop].
+    replace (N.of_nat (S c) + 1) with (N.of_nat (S (S c))) by lia.
+    rewrite (Ti (S c) Hc). rewrite (Ti c ltac:(lia)).
+    destruct ((n <=? nth (S c) ls 0) && (nth c ls 0 <? n)) eqn:E.
+    + apply andb_true_iff in E. destruct E as [_ E]. apply N.ltb_lt in E.
+      f_equal. f_equal. symmetry. apply first_idx_char; auto.
+      intros i Hi. pose proof (sorted_n_nth ls Hs i c ltac:(lia)). lia.
+    + assert (Hn : (nth (S c) ls 0 <? n) = false) by (apply N.ltb_ge; exact Hu). rewrite Hn.
+      assert (Hz : (N.of_nat (S c) =? 0) = false) by (apply N.eqb_neq; lia). rewrite Hz.
+      replace (N.of_nat (S c) - 1) with (N.of_nat c) by lia.
+      apply IH; [lia | lia |].
+      apply andb_false_iff in E. destruct E as [E|E]; [apply N.leb_gt in E; lia|]. apply N.ltb_ge in E. exact E.
+Qed.
+
+(* GetSetIDByBlockNumber agrees with AuthoritySetChanges::get_set_id (Latest = current set id)
+   whenever the recorded last-block numbers are non-decreasing *)
+Lemma setid_lookup_agrees : forall chs ls n, sorted_n ls = true -> go_table_ok chs ls ->
+  setid_loop (S (S (length ls))) chs n (N.of_nat (length ls)) =
+  Some (match s_setid_in (spec_table_from 0 ls) n with Some id => id | None => N.of_nat (length ls) end).
+Proof.
+  intros chs ls n Hs T. pose proof T as [T0 [Ti Tn]].
+  rewrite s_setid_in_first. cbn [Nat.add].
+  cbn [setid_loop]. replace (N.of_nat (length ls) + 1) with (N.of_nat (S (length ls))) by lia. rewrite Tn.
+  destruct (length ls) as [|k] eqn:L.
+  - cbn [N.of_nat N.eqb]. destruct ls; [reflexivity | discriminate].
+  - assert (Hz : (N.of_nat (S k) =? 0) = false) by (apply N.eqb_neq; lia). rewrite Hz.
+    replace (N.of_nat (S k) - 1) with (N.of_nat k) by lia.
+    destruct (n <=? nth k ls 0) eqn:E.
+    + apply N.leb_le in E. rewrite (setid_loop_down chs ls n Hs T k (S (S k))); [|lia|lia|exact E].
+      assert (B : (first_idx (geq n) ls <? S k)%nat = true).
+      { apply Nat.ltb_lt. destruct (Nat.lt_ge_cases (first_idx (geq n) ls) (S k)) as [H|H]; [exact H|].
+        pose proof (first_idx_false (geq n) 0 ls k ltac:(lia)) as F. unfold geq in F.
+        apply N.leb_gt in F. lia. }
+      rewrite B. reflexivity.
+    + apply N.leb_gt in E. cbn [setid_loop].
+      replace (N.of_nat k + 1) with (N.of_nat (S k)) by lia. rewrite (Ti k ltac:(lia)).
+      assert (A : aget chs (N.of_nat k) <> None).
+      { destruct k; [cbn; rewrite T0; discriminate | rewrite (Ti k ltac:(lia)); discriminate]. }
+      destruct (aget chs (N.of_nat k)) as [lower|]; [|congruence].
+      assert (E1 : (n <=? nth k ls 0) = false) by (apply N.leb_gt; exact E). rewrite E1. cbn [andb].
+      assert (E2 : (nth k ls 0 <? n) = true) by (apply N.ltb_lt; exact E). rewrite E2.
+      assert (B : (first_idx (geq n) ls <? S k)%nat = false).
+      { apply Nat.ltb_ge. destruct (Nat.lt_ge_cases (first_idx (geq n) ls) (S k)) as [H|H]; [|exact H].
+        pose proof (first_idx_true (geq n) 0 ls ltac:(lia)) as T1. unfold geq in T1.
+        apply N.leb_le in T1.
+        pose proof (sorted_n_nth ls Hs (first_idx (geq n) ls) k ltac:(lia)). lia. }
+      rewrite B. f_equal. lia.
+Qed.
